@@ -189,7 +189,7 @@ func checkC12(ctx *Ctx) {
 		}
 	}
 	// (l) large pub/sub frames from several publishers to one subscriber that is also being answered
-	for i := 0; i < ctx.N(8, 64); i++ {
+	for i := 0; i < ctx.N(24, 96); i++ {
 		if !ctx.Mine(i + 5) {
 			continue
 		}
@@ -861,7 +861,7 @@ func c12PubSubLarge(ctx *Ctx, srv *c12Server, i int) bool {
 		return true
 	}
 	defer sub.Close()
-	const nPub, nMsg = 4, 60
+	const nPub, nMsg = 6, 120
 	chans := make([]string, nPub)
 	for p := range chans {
 		chans[p] = fmt.Sprintf("big:%d:%d", i, p)
@@ -927,7 +927,7 @@ func c12PubSubLarge(ctx *Ctx, srv *c12Server, i int) bool {
 			if pe, _ := pubErr.Load().(string); pe != "" {
 				what += "; " + pe
 			}
-			ctx.Violate(Violation{Kind: "framing", Lane: "pubsub-large", What: "one subscriber, four publishers of 6 KB messages, own requests on the same socket: " + what,
+			ctx.Violate(Violation{Kind: "framing", Lane: "pubsub-large", What: "one subscriber, six publishers of 6 KB messages, own requests on the same socket: " + what,
 				Case: map[string]interface{}{"publishers": nPub, "messages_each": nMsg}, Key: "c12|pubsub-large|framing"})
 			wg.Wait()
 			return srv.alive()
@@ -969,7 +969,7 @@ func c12PubSubLarge(ctx *Ctx, srv *c12Server, i int) bool {
 	wg.Wait()
 	ctx.Eval(1)
 	ctx.Count("pubsub_large_messages", int64(got))
-	ctx.Class("pubsub-large|4-publishers|6KB")
+	ctx.Class("pubsub-large|6-publishers|6KB")
 	return true
 }
 
